@@ -16,7 +16,7 @@ import (
 
 func init() { register("C11", runC11) }
 
-var c11Topics = []string{"a", "b", "a/b", "a/a", "a/", "/", "a/b/c", "$SYS", "$SYS/a", "$share/g/a"}
+var c11Topics = []string{"a", "b", "a/b", "a/a", "a/", "/", "a/b/c", "$SYS", "$SYS/a", "$share/g/a", "a/$b", "$SYS/$a"}
 
 func c11StoreAlphabets(quick bool) [][]string {
 	as := [][]string{
